@@ -542,7 +542,8 @@ Proof.
   destruct (quiet_step_func w1 Q1) as (w2 & E2 & Q2). rewrite E2. simpl. rewrite K.
   destruct (quiet_step_alloc w2 Q2) as (w3 & E3 & Q3). rewrite E3.
   destruct (quiet_relocate c w3 (nth i b 0) Q3) as (w4 & E4 & Q4). rewrite E4.
-  exists w4, (bucket_remove b i ++ [nth i b 0]). repeat split; try assumption.
+  exists w4, (bucket_remove b i ++ [nth i b 0]).
+  split; [reflexivity|]. split; [reflexivity|]. split; [reflexivity|]. split; [|exact Q4].
   etransitivity; [symmetry; apply Permutation_cons_append|exact P].
 Qed.
 
